@@ -1,6 +1,6 @@
 /-
 C01 — cached components (Model/Ledger/Comp.lean, Components.lean): the generic coherence theorem for exact
-components and the exactness of settings / whitelist / designate / management; gasPerVote lookup coherence.
+components and the exactness of whitelist / management (guarded settings, RoleManagement, gasPerBlock: LedgerGuarded, LedgerGpb); gasPerVote lookup coherence.
 -/
 import NeoModel.Model.Ledger.Components
 namespace NeoModel.Ledger.Comp
@@ -73,22 +73,6 @@ end NeoModel.Ledger.Comp
 namespace NeoModel.Ledger.Components
 open NeoModel.Ledger NeoModel.Ledger.Comp
 
-theorem settingsRW_exact : settingsRW.Exact where
-  step := by
-    intro s h o s' c' he
-    obtain ⟨o, ho⟩ := o
-    cases o with
-    | set k v =>
-      simp only [settingsRW, settings, Option.some.injEq, Prod.mk.injEq] at he
-      rw [← he.1, ← he.2]; rfl
-    | setViaRO k v => simp [SetOp.disciplined] at ho
-  noLeak := by
-    intro c o
-    obtain ⟨o, ho⟩ := o
-    cases o with
-    | set k v => rfl
-    | setViaRO k v => simp [SetOp.disciplined] at ho
-
 theorem whitelist_exact : whitelist.Exact where
   step := by
     intro s h o s' c' he
@@ -131,28 +115,6 @@ theorem management_exact : management.Exact where
 theorem maxEntry_cons_other (e : (Nat × Nat) × List Nat) (s : RoleStore) (r : Nat) (h : e.1.1 ≠ r) :
     maxEntry (e :: s) r = maxEntry s r := by
   simp [maxEntry, h]
-
-theorem designate_exact : designate.Exact where
-  step := by
-    intro s h o s' c' he
-    cases o with
-    | designate r nodes =>
-      simp only [designate] at he
-      split at he; · simp at he
-      split at he; · simp at he
-      simp only [Option.some.injEq, Prod.mk.injEq] at he
-      rw [← he.1, ← he.2]
-      have hi : ∀ t, designate.init t = roleList.map fun r => (r, maxEntry t r) := fun _ => rfl
-      rw [hi]
-      simp only [List.map_map]
-      apply List.map_congr_left
-      intro r' _
-      simp only [Function.comp]
-      by_cases e : r' = r
-      · simp [e]
-      · simp only [e, if_false]
-        rw [maxEntry_cons_other _ _ _ (fun x => e x.symm)]
-  noLeak := fun _ _ => rfl
 
 /-- what the layer discipline protects against: a setter that wrote through GetROCache would survive the
     rollback of its transaction — cache 5, storage nothing. -/
@@ -229,87 +191,5 @@ theorem gpvLookup_stored (g : GpvState) (h : GpvCoherent g) (k : Nat) : gpvLooku
   cases hc : aget g.cache k with
   | none => rfl
   | some v => simp [h k v hc]
-
-end NeoModel.Ledger.Components
-
--- gasPerBlock ---------------------------------------------------------------------------------------------------
-namespace NeoModel.Ledger.Components
-
-def Below (l : List (Nat × Int)) (x : Nat) : Prop := ∀ e ∈ l, e.1 < x
-
-theorem insertRec_append (x : Nat × Int) (l : List (Nat × Int)) (h : Below l x.1) : insertRec x l = l ++ [x] := by
-  induction l with
-  | nil => rfl
-  | cons y r ih =>
-    have hy : y.1 < x.1 := h y List.mem_cons_self
-    have hr : Below r x.1 := fun e he => h e (List.mem_cons_of_mem _ he)
-    simp only [insertRec]
-    have : ¬ x.1 ≤ y.1 := by omega
-    simp only [this, if_false, ih hr, List.cons_append]
-
-theorem filter_absent (l : List (Nat × Int)) (k : Nat) (h : Below l k) : l.filter (·.1 != k) = l := by
-  apply List.filter_eq_self.mpr
-  intro e he
-  have := h e he
-  simp; omega
-
-/-- invariant: the store is the cache newest-first, all indices below the next one -/
-structure GpbInv (g : GpbState) (bound : Nat) : Prop where
-  rev : g.store = g.cache.reverse
-  below : Below g.cache bound
-
-theorem sort_desc (l : List (Nat × Int)) (hs : List.Pairwise (fun a b => b.1 < a.1) l) :
-    l.foldr insertRec [] = l.reverse := by
-  induction l with
-  | nil => rfl
-  | cons x r ih =>
-    have hp := List.pairwise_cons.mp hs
-    simp only [List.foldr_cons, ih hp.2, List.reverse_cons]
-    apply insertRec_append
-    intro e he
-    exact hp.1 e (List.mem_reverse.mp he)
-
-theorem sort_rev (c : List (Nat × Int)) (hs : List.Pairwise (fun a b => a.1 < b.1) c) :
-    c.reverse.foldr insertRec [] = c := by
-  have := sort_desc c.reverse (List.pairwise_reverse.mpr hs)
-  rw [this, List.reverse_reverse]
-
-theorem gpbSet_sorted (g : GpbState) (h : Nat) (v : Int) (b : Nat) (hi : GpbInv g b) (hb : b ≤ h + 1)
-    (hs : List.Pairwise (fun a b => a.1 < b.1) g.cache) :
-    GpbInv (gpbSet g h v) (h + 2) ∧ List.Pairwise (fun a b => a.1 < b.1) (gpbSet g h v).cache := by
-  have hbel : Below g.cache (h + 1) := fun e he => by have := hi.below e he; omega
-  refine ⟨⟨?_, ?_⟩, ?_⟩
-  · simp only [gpbSet, aput, List.reverse_append, List.reverse_singleton, List.singleton_append]
-    rw [hi.rev, filter_absent]
-    intro e he
-    exact hbel e (List.mem_reverse.mp he)
-  · intro e he
-    simp only [gpbSet, List.mem_append, List.mem_singleton] at he
-    rcases he with he | he
-    · have := hbel e he; omega
-    · subst he; simp
-  · simp only [gpbSet]
-    apply List.pairwise_append.mpr
-    refine ⟨hs, List.pairwise_singleton _ _, ?_⟩
-    intro a ha b' hb'
-    simp only [List.mem_singleton] at hb'
-    subst hb'
-    exact hbel a ha
-
-theorem gpbFold_inv (ops : List (Nat × Int)) : ∀ (g : GpbState) (b : Nat), GpbInv g b →
-    List.Pairwise (fun a b => a.1 < b.1) g.cache → Increasing b ops →
-    (gpbRestart (gpbFold g ops)).cache = (gpbFold g ops).cache := by
-  induction ops with
-  | nil =>
-    intro g b hi hs _
-    simp only [gpbFold, gpbRestart]
-    rw [hi.rev]
-    exact sort_rev g.cache hs
-  | cons o r ih =>
-    intro g b hi hs hinc
-    obtain ⟨h, v⟩ := o
-    simp only [gpbFold]
-    have := gpbSet_sorted g h v b hi hinc.1 hs
-    exact ih _ (h + 2) this.1 this.2 hinc.2
 
 end NeoModel.Ledger.Components
